@@ -265,6 +265,123 @@ def make_content(nlines, maxlen):
     return fn
 
 
+# ------------------------------------------------------------------ O1b: multi-output results (a list of providers, possibly of different kinds)
+REL = {"datasource": "rel/ds_file", "text_file": "etc/some.conf", "command": "the_command_-x", "container_command": "cid/insights_commands/cmd", "container_file": "cid/etc/x.conf"}
+
+
+def roundtrip_multi(kinds, lines_list):
+    """serde.marshal -> JSON -> serde.unmarshal on a list result; element i gets its own relative location"""
+    fs = MemFS()
+    with Patched(fs):
+        provs = []
+        for i, (k, ls) in enumerate(zip(kinds, lines_list)):
+            p_ = make_provider(k, ls, None)
+            p_.relative_path = "%s_%d" % (p_.relative_path, i)
+            provs.append(p_)
+
+        def comp():
+            pass
+        broker = dr.Broker()
+        broker[comp] = provs
+        docs, errors = serde.marshal(comp, broker, root="/out/data")
+        docs = json.loads(json.dumps(docs))
+        backs = serde.unmarshal(docs, root="/out/data", ctx=None, ds=None)
+        contents = [list(b.content) for b in backs]
+        return provs, docs, backs, contents, errors
+
+
+def judge_multi(provs, docs, backs, contents, errors, lines_list, eq):
+    bad = []
+    if errors:
+        bad.append("serialization errors: %r" % (errors,))
+    if len(backs) != len(provs):
+        bad.append("%d elements persisted, %d loaded" % (len(provs), len(backs)))
+        return bad
+    for i, (p_, d, b, c, ls) in enumerate(zip(provs, docs, backs, contents, lines_list)):
+        bad.extend("element %d: %s" % (i, x) for x in judge_roundtrip(p_, d, b, c, ls, eq))
+        if b.relative_path != d["object"]["relative_path"] or not b.relative_path.endswith("_%d" % i):
+            bad.append("element %d is out of order (%s)" % (i, b.relative_path))
+    return bad
+
+
+def make_multi(nel):
+    def fn(en):
+        n = 2 + en.choice("n", nel - 1)
+        kinds = [KINDS[en.choice("kind%d" % i, len(KINDS))] for i in range(n)]
+        lines_list = [[sstr.fresh_str(en, "m%d" % i, 1 + en.choice("len%d" % i, 2), LINE_ALPHA)] for i in range(n)]
+        case = lambda mv: {"kind": "multi", "providers": kinds, "lines": [[mv.str(x) for x in ls] for ls in lines_list]}  # noqa
+        en.note_sample(case)
+        provs, docs, backs, contents, errors = roundtrip_multi(kinds, lines_list)
+        eqs = []
+
+        def eq(a, b):
+            if len(a) != len(b):
+                return False
+            f = f_eq(a, b)
+            if isinstance(f, bool):
+                return f
+            eqs.append(f)
+            return True
+        bad = judge_multi(provs, docs, backs, contents, errors, lines_list, eq)
+        en.must_hold(not bad, "content-roundtrip", case, detail=bad)
+        for f in eqs:
+            en.must_hold(SBool(f), "content-roundtrip", case, detail="a loaded character differs from the persisted one")
+    return fn
+
+
+# ------------------------------------------------------------------ O1c: line counts around the integer constants of the code
+def code_constants(lo=8, hi=20000):
+    """integer literals of the persisting / loading modules, read from /repo's current source: candidates for chunk sizes, limits"""
+    import ast
+    import inspect
+    out = set()
+    for mod in (SF, serde):
+        try:
+            src = inspect.getsource(getattr(mod, "__wrapped_native__", mod))
+        except Exception:
+            src = open(mod.__file__).read()
+        for node in ast.walk(ast.parse(src)):
+            if isinstance(node, ast.Constant) and isinstance(node.value, int) and not isinstance(node.value, bool) and lo <= node.value <= hi:
+                out.add(node.value)
+    return sorted(out)
+
+
+def boundary_lines(n, k, sym):
+    """n lines, concrete filler, with the lines next to the boundary k (and the first and last) supplied by sym(i)"""
+    special = set(i for i in (0, k - 1, k, n - 1) if 0 <= i < n)
+    return [sym(i) if i in special else "line %d" % i for i in range(n)]
+
+
+def make_boundaries():
+    def fn(en):
+        consts = code_constants()
+        if not consts:
+            en.must_hold(True, "content-roundtrip")
+            return
+        k = consts[en.choice("const", len(consts))]
+        n = k + en.choice("delta", 3) - 1 + 1        # k, k+1, k+2 lines: a boundary after k lines falls inside the content for the last two
+        kind = ["datasource", "command", "text_file"][en.choice("kind", 3)]
+        lines = boundary_lines(n, k, lambda i: sstr.fresh_str(en, "b%d" % i, 1, LINE_ALPHA))
+        case = lambda mv: {"kind": "boundary", "provider": kind, "n": n, "k": k, "special": dict((str(i), mv.str(x)) for i, x in enumerate(lines) if isinstance(x, SStr))}  # noqa
+        en.note_sample(case)
+        prov, doc, back, content, fs = roundtrip(kind, lines, None)
+        eqs = []
+
+        def eq(a, b):
+            if len(a) != len(b):
+                return False
+            f = f_eq(a, b)
+            if isinstance(f, bool):
+                return f
+            eqs.append(f)
+            return True
+        bad = judge_roundtrip(prov, doc, back, content, lines, eq)
+        en.must_hold(not bad, "content-roundtrip", case, detail=bad[:4])
+        for f in eqs:
+            en.must_hold(SBool(f), "content-roundtrip", case, detail="a loaded character differs from the persisted one")
+    return fn
+
+
 # ------------------------------------------------------------------ O2: corruption of metadata entries (real scratch directory)
 FAULTS = ["intact", "deleted", "truncated", "non-json", "unknown-name", "data-file-missing", "json-null", "json-list", "json-empty-object"]
 
@@ -402,6 +519,14 @@ def obligations(tier):
                           "str.encode('utf-8') on symbolic text is carried through unchanged (the UTF-8 codec is outside the encoding)"],
                    outside=["UTF-8 codec, json module", "RawFileProvider (shells out to cp)", "very long lines"], encoded=enc[:12], budget_s=900 if thorough else 200, replay="content",
                    check_sample=True),
+        Obligation("O1b-multi-output", make_multi(3 if thorough else 2), ["content-roundtrip"],
+                   desc="a multi-output result (list of providers, each of any kind) through serde.marshal -> JSON -> serde.unmarshal: every element comes back as the same kind with its lines, command, arguments, location, in order",
+                   bounds={"elements": "2-%d" % (3 if thorough else 2), "providers": "any kind per element", "lines": "one line of 1-2 symbolic chars per element"},
+                   stubs=["in-memory file layer as in O1"], encoded=[serde.marshal, serde.unmarshal, serde.serialize, serde.deserialize] + enc[:12], budget_s=600 if thorough else 120, replay="content", check_sample=True),
+        Obligation("O1c-line-count-boundaries", make_boundaries(), ["content-roundtrip"],
+                   desc="contents whose number of lines is k, k+1, k+2 for every integer literal k (8..20000) found in the current source of spec_factory.py / serde.py (chunk sizes, limits): lines next to the boundary symbolic, the rest concrete filler",
+                   bounds={"line counts": "k, k+1, k+2 for k in %s (read from the source on every run)" % (code_constants(),), "symbolic lines": "first, last, k-1, k (1 char each)", "providers": ["datasource", "command", "text_file"]},
+                   stubs=["in-memory file layer as in O1"], encoded=enc[:2], budget_s=600 if thorough else 150, replay="content", check_sample=True),
         Obligation("O2-corruption", make_corrupt(), ["corruption-tolerated"],
                    desc="real Hydration on a scratch directory: four components (one multi-output, one failed), every fault on any subset of the three loadable entries, four listing orders",
                    bounds={"faults": FAULTS, "entries": 3, "listing order": "4 rotations"},
@@ -431,6 +556,13 @@ def _native(case):
         finally:
             shutil.rmtree(root, ignore_errors=True)
         return bad
+    if case["kind"] == "multi":
+        provs, docs, backs, contents, errors = roundtrip_multi(case["providers"], case["lines"])
+        return judge_multi(provs, docs, backs, contents, errors, case["lines"], lambda a, b: a == b)
+    if case["kind"] == "boundary":
+        lines = boundary_lines(case["n"], case["k"], lambda i: case["special"][str(i)])
+        sub = {"kind": "content", "provider": case["provider"], "save_as": None, "lines": lines}
+        return [b if len(b) < 300 else b[:300] + "..." for b in _native(sub)]
     return corrupt_run(case["faults"], case.get("order", 0))
 
 
